@@ -35,7 +35,7 @@ PROPS = {
                  "-fieldassign", "lib/j5schema",
                  "-entryexported", "lib/j5schema,internal/codec,lib/j5codec,lib/j5reflect",
                  "-entryrecv", "lib/j5reflect:Reflector"],
-        extra_pkgs=[],
+        extra_pkgs=[("sim/j5sgen", "internal/zzverif/j5sgen")],
         tiers={
             "quick": dict(budget=60, args=[], selftest_runs=2),
             "thorough": dict(budget=1500, args=["-deep", "-scheds", "16"], selftest_runs=6),
